@@ -262,6 +262,15 @@ func bounded(fn *ssa.Function, v ssa.Value, k int64, upper bool, at *ssa.BasicBl
 		}
 		return cst >= k
 	}
+	// min(x, y) is <= k when one operand is and >= k when both are; max is the dual
+	if kind, args, ok := minMaxCall(v); ok {
+		bx := bounded(fn, args[0], k, upper, at, depth+1)
+		by := bounded(fn, args[1], k, upper, at, depth+1)
+		if (kind < 0) == upper {
+			return bx || by
+		}
+		return bx && by
+	}
 	// the value is computed by a helper of the module (level := adjustedLevel(…)): bounded when
 	// every value the helper returns is bounded at its return
 	if call, ok := v.(*ssa.Call); ok {
@@ -403,14 +412,28 @@ func ruleHeadingClamp(c *eng.Ctx) {
 			}
 			// offset ordering: if the level depends on HeadingLevelOffset, the value compared with MaxHeadingLevel must depend on it too
 			dependsOffset := false
-			for v := range eng.Slice(args[1], nil) {
-				if fr, ok := eng.AsField(v); ok && fr.Field == "HeadingLevelOffset" {
-					dependsOffset = true
+			thruMM := func(call *ssa.Call) bool { _, _, ok := minMaxCall(call); return ok }
+			hasOffset := func(v ssa.Value) bool {
+				for w := range eng.Slice(v, thruMM) {
+					if fr, ok := eng.AsField(w); ok && fr.Field == "HeadingLevelOffset" {
+						return true
+					}
 				}
+				return false
 			}
+			dependsOffset = hasOffset(args[1])
 			if dependsOffset {
 				okMax := false
 				eng.Instrs(fn, false, func(in ssa.Instruction) {
+					if v, isV := in.(ssa.Value); isV {
+						if kind, a, ok := minMaxCall(v); ok && kind < 0 {
+							for i := 0; i < 2; i++ {
+								if fr, ok := eng.LoadOfField(a[i]); ok && fr.Field == "MaxHeadingLevel" && hasOffset(a[1-i]) {
+									okMax = true
+								}
+							}
+						}
+					}
 					b, ok := in.(*ssa.BinOp)
 					if !ok || b.Op != token.GTR {
 						return
@@ -418,10 +441,8 @@ func ruleHeadingClamp(c *eng.Ctx) {
 					if fr, ok := eng.LoadOfField(b.Y); !ok || fr.Field != "MaxHeadingLevel" {
 						return
 					}
-					for v := range eng.Slice(b.X, nil) {
-						if fr, ok := eng.AsField(v); ok && fr.Field == "HeadingLevelOffset" {
-							okMax = true
-						}
+					if hasOffset(b.X) {
+						okMax = true
 					}
 				})
 				if !okMax {
@@ -430,6 +451,15 @@ func ruleHeadingClamp(c *eng.Ctx) {
 				// the final <= 6 clamp must also see the offset: the compared value depends on the offset
 				okSix := false
 				eng.Instrs(fn, false, func(in ssa.Instruction) {
+					if v, isV := in.(ssa.Value); isV && in.Block().Dominates(ci.Block()) {
+						if kind, a, ok := minMaxCall(v); ok && kind < 0 {
+							for i := 0; i < 2; i++ {
+								if k, isC := eng.ConstInt(a[i]); isC && k == 6 && hasOffset(a[1-i]) {
+									okSix = true
+								}
+							}
+						}
+					}
 					b, ok := in.(*ssa.BinOp)
 					if !ok || b.Op != token.GTR {
 						return
@@ -440,10 +470,8 @@ func ruleHeadingClamp(c *eng.Ctx) {
 					if !b.Block().Dominates(ci.Block()) {
 						return
 					}
-					for v := range eng.Slice(b.X, nil) {
-						if fr, ok := eng.AsField(v); ok && fr.Field == "HeadingLevelOffset" {
-							okSix = true
-						}
+					if hasOffset(b.X) {
+						okSix = true
 					}
 				})
 				if !okSix {
